@@ -1,6 +1,7 @@
 #include "avtp/acf/Can.h"
 #include <string.h>
 #include "drivers.h"
+#include "avtp/Utils.h"
 /* (variant -1 / -2: the enumerators AVTP_CAN_FD / AVTP_CAN_CLASSIC by name, as application code writes them) */
 static Avtp_CanVariant_t named_variant(int variant) { return variant == -1 ? AVTP_CAN_FD : variant == -2 ? AVTP_CAN_CLASSIC : (Avtp_CanVariant_t)variant; }
 uint64_t drv_can_create(void *pdu, uint32_t id, uint8_t *payload, uint16_t len, int variant) {
@@ -28,4 +29,15 @@ uint64_t drv_can_create_fixed(void *pdu, uint32_t id, uint8_t *payload, uint16_t
         DRV_FIXED(0) DRV_FIXED(1) DRV_FIXED(3) DRV_FIXED(4) DRV_FIXED(5) DRV_FIXED(8) DRV_FIXED(12) DRV_FIXED(63) DRV_FIXED(64)
     default: return 0;
     }
+}
+
+/* the generic field codec with a descriptor table of the application's own (formats the library does not know: a header of up to 64
+ * bytes); desc = n triples {quadlet, offset, bits} */
+uint64_t drv_generic_field(const uint8_t *desc, int n, uint8_t *pdu, int field, int set, uint64_t v) {
+    Avtp_FieldDescriptor_t tab[32];
+    int i;
+    if (n > 32) n = 32;
+    for (i = 0; i < n; i++) { tab[i].quadlet = desc[3 * i]; tab[i].offset = desc[3 * i + 1]; tab[i].bits = desc[3 * i + 2]; }
+    if (set) { Avtp_SetField(tab, (uint8_t)n, pdu, (uint8_t)field, v); return 0; }
+    return Avtp_GetField(tab, (uint8_t)n, pdu, (uint8_t)field);
 }
